@@ -11,6 +11,17 @@ CLAIMED = {}
 NOT_CLAIMED = {}
 
 
+PENDING_CLAIMS = {}
+
+
+def claim_pending(pid, *a, **kw):
+    """a finished check that currently raises an alarm on the unchanged tree and is being corrected: not claimed until it is quiet"""
+    PENDING_CLAIMS[pid] = (a, kw)
+    NOT_CLAIMED[pid] = ("check built (model, theorems, harness) but temporarily not claimed: its end-to-end sweep meets the encoder's run-to-run "
+                        "nondeterminism with TPL at >= 2 logical processors (a genuine defect, DESIGN section 10) and is being restructured so that this "
+                        "family is recorded as a known finding instead of raising a different alarm per seed")
+
+
 def claim(pid, category, text, note, technique, engine, design=None):
     CLAIMED[pid] = dict(category=category, text=text, note=note, technique=technique, engine=engine,
                         design=design or "DESIGN.md section 5 %s" % pid)
@@ -23,8 +34,14 @@ claim("C02", "proof",
       "exactly one shown frame. The hand-written Lean OBU/sequence/frame-header parser is tied to the code by correspondence: every packet of a "
       "matrix of real encodes is parsed by Lean and by the real decoder's parser and ~70 header fields are compared; the property's own oracle "
       "(parse ok, TD first, exactly one displayed frame, sequence header repeated byte-identically with key frames, pic_type vs frame type) runs on "
-      "the real packets.",
-      AX + "; hand-written models Model/{Leb128,Obu,Tu,Av1Header}.lean (transcribed from EbEntropyCoding.c / EbPacketizationProcess.c and AV1 spec 5.3-5.9) tied by "
+      "the real packets. Every place where the encoder frames an OBU (5 sites: metadata, frame/frame-header, sequence header, the two temporal-delimiter "
+      "writers) is re-translated from the clang AST on every run into Gen/ObuSites.lean (value whose leb128 length is reserved, value encoded, bytes moved, size "
+      "accounted); site_layout_parses proves for ALL payload lengths that a consistent site lays out header ++ leb128 ++ payload which parses back to that OBU, "
+      "all_sites_consistent discharges the consistency of the regenerated table, mismatched_reservation_iff / _breaks characterise the failure at the leb128 "
+      "boundaries (127, 16383, ...). The check measures which boundary payload sizes (126/127/128) real frame OBUs actually hit (a boundary-directed family of tiny "
+      "encodes runs until they do) and encodes one stream longer than the 2048-entry packetization queue (thorough: three more), every packet through the same oracle; "
+      "the show-existing branch of packetization_kernel is also run as extracted text on real queue entries for > 3 x 2048 pictures.",
+      AX + "; xlate/obusites.py (symbolic execution of the framing functions; refuses unknown shapes); hand-written models Model/{Leb128,Obu,Tu,Av1Header,ObuSite}.lean (transcribed from EbEntropyCoding.c / EbPacketizationProcess.c and AV1 spec 5.3-5.9) tied by "
       "correspondence on sampled real encodes; header *semantics* beyond the parsed fields and tile payloads are not modelled; two recorded findings (F13 pic_type enum, "
       "stream-header API mismatch).",
       "Lean 4 proof over a hand-written model + differential correspondence (Lean header parser vs real decoder parser on real packets)",
@@ -288,7 +305,7 @@ claim("C17", "other",
       "Lean 4 proof over a generic model + kernel-checked classification of a regenerated inventory (translator) + real multi-instance runs vs solo",
       "lean-translator")
 
-claim("C04", "other",
+claim_pending("C04", "other",
       "Protocol theorems, for every size, thread count and interleaving: dag_confluence / dag_equals_sequential / dag_progress for arbitrary task DAGs whose bodies "
       "read only completed ancestors; instantiated for EncDec segments through the C24 model (encdec_guard_enforced, encdec_confluence, encdec_terminates) and for the "
       "dependency-free segment grids (independent_grid_confluence, last_one_fires_once); handshake_no_lost_wakeup for the cond-var protocol (8-pc transition "
@@ -302,7 +319,7 @@ claim("C04", "other",
       "Lean 4 protocol proofs for all interleavings + differential execution of the real encoder under seeded schedule perturbation and thread-count change",
       "lean-correspondence")
 
-claim("C27", "other",
+claim_pending("C27", "other",
       "From the SRM model (C23): nonblocking_never_blocks, nonblocking_token_stable, nonblocking_returns_iff_available, idempotent_registration; from the Kahn "
       "network model: output_indep_of_polling under the NAMED hypothesis H-kahn (no library code branches on emptiness of an application-facing queue or on time), "
       "with hkahn_needed as counterexample; hkahn_syntactic: a table of the callers of the non-blocking getters and of every clock read in the encoder library "
